@@ -380,6 +380,58 @@ func (e *Engine) sliceOfText(st *State, ps []Piece, str bool) SliceV {
 func (e *Engine) libCall(st *State, fr *Frame, name string, args []Val, c *ssa.CallCommon) ([]Outcome, bool) {
 	one := func(v ...Val) ([]Outcome, bool) { return []Outcome{{st: st, ret: v}}, true }
 	switch name {
+	case "strings.IndexByte":
+		// the index of the first occurrence of c in s, or -1: stated with two (named) quantified facts
+		s, ch := args[0].(SliceV), asTerm(args[1])
+		arr := s.Arr
+		if arr == nil {
+			arr = st.arrOf(s.Base)
+		}
+		i := Sym(fresh("indexbyte"), 64)
+		zero := BVu(0, 64)
+		none := func(hi *Term) *Term {
+			k := BoundVar(fresh("k"), 64)
+			body := Implies(And(SLe(zero, k), SLt(k, hi)), Not(Eq(Select(arr, Add(s.Off, k), 8), ch)))
+			qf := &Term{Leaf: fresh("qf"), W: 0, QDef: Forall(k, body)}
+			registerQFacts(qf, k, body, []traceRead{{s.Base.String(), Add(s.Off, k)}})
+			return qf
+		}
+		st.assumeT(Or(And(Eq(i, BVu(^uint64(0), 64)), none(s.Len)),
+			And(SLe(zero, i), SLt(i, s.Len), Eq(Select(arr, Add(s.Off, i), 8), ch), none(i))))
+		st.instantiateAtLoggedReads(s.Base.String())
+		return one(i)
+	case "strings.ToLower":
+		// Decided for inputs whose length is a known small constant on this path: if all bytes are ASCII the result
+		// has the same length and every upper-case letter is replaced by its lower-case one. Anything else (unknown
+		// length, a non-ASCII byte — Unicode case mapping may change the length) leaves the result unconstrained.
+		s := args[0].(SliceV)
+		n := -1
+		for k := 0; k <= 16; k++ {
+			if e.valid(st, Eq(s.Len, BVu(uint64(k), 64))) {
+				n = k
+				break
+			}
+		}
+		base := st.allocRef()
+		out := SliceV{Base: base, Off: BVu(0, 64), Len: Sym(fresh("lowerlen"), 64), Elem: types.Typ[types.Uint8], Str: true}
+		out.Cap = out.Len
+		st.assumeT(And(SLe(BVu(0, 64), out.Len), SLt(out.Len, BVu(1<<40, 64))))
+		na := SymSort(fresh("lower_arr"), byteArrSort)
+		st.setArr(base, na)
+		if n >= 0 {
+			ascii := tTrue
+			same := Eq(out.Len, BVu(uint64(n), 64))
+			for k := 0; k < n; k++ {
+				b := st.readByte(s, BVu(uint64(k), 64))
+				ascii = And(ascii, ULt(b, BVu(0x80, 8)))
+				lower := Ite(And(ULe(BVu('A', 8), b), ULe(b, BVu('Z', 8))), Add(b, BVu(32, 8)), b)
+				same = And(same, Eq(Select(na, BVu(uint64(k), 64), 8), lower))
+			}
+			st.assumeT(Implies(ascii, same))
+		} else {
+			e.warn("strings.ToLower on a string of unknown length: result unconstrained")
+		}
+		return one(out)
 	case "(encoding/binary.littleEndian).Uint16", "(encoding/binary.littleEndian).Uint32", "(encoding/binary.littleEndian).Uint64",
 		"(encoding/binary.bigEndian).Uint16", "(encoding/binary.bigEndian).Uint32", "(encoding/binary.bigEndian).Uint64":
 		n := map[byte]int{'6': 2, '2': 4, '4': 8}[name[len(name)-1]]
